@@ -50,9 +50,10 @@ impl Ctx {
 pub fn input_class(bytes: &[u8], from: &str, to: &str) -> &'static str {
     if from == "yaml" || from == "detect" {
         if let Ok(s) = std::str::from_utf8(bytes) {
-            let s = s.trim_start_matches('\u{feff}'); // a byte order mark is not content
-            if s.lines().all(|l| {
-                let t = l.trim_start_matches([' ', '\t']);
+            // no line holds content: lines as libyaml sees them (LF, CR, NEL, LS, PS end a line; a byte
+            // order mark may start one), each blank or a comment
+            if s.split(['\n', '\r', '\u{85}', '\u{2028}', '\u{2029}']).all(|l| {
+                let t = l.trim_start_matches('\u{feff}').trim_start_matches([' ', '\t']);
                 t.is_empty() || t.starts_with('#')
             }) {
                 return "yaml_void";
@@ -447,8 +448,19 @@ fn enctokens(cx: &mut Ctx) {
         let key_text = Rc::new(t.clone().into_bytes());
         let to = ["json", "yaml", "msgpack"][n % 3];
         let mut variants: Vec<(String, Vec<u8>)> = vec![("utf8".into(), t.clone().into_bytes())];
+        // (a text that itself begins with U+FEFF is its own marked form: a second mark in front of it would
+        // turn the first into content)
+        let own_mark = t.starts_with('\u{feff}');
+        if !own_mark {
+            variants.push(("utf8+bom".into(), [&[0xef, 0xbb, 0xbf][..], t.as_bytes()].concat()));
+        }
         for enc in val::ENCODINGS {
             for bom in [false, true] {
+                // without a byte order mark the encoding of UTF-16/32 text is defined only if it starts with an
+                // ASCII character (YAML 1.2 section 5.2)
+                if (!bom && !t.starts_with(|c: char| c.is_ascii())) || (bom && own_mark) {
+                    continue;
+                }
                 variants.push((format!("{enc}{}", if bom { "+bom" } else { "" }), val::reencode(&t, enc, bom)));
             }
         }
@@ -529,6 +541,7 @@ fn encodings(cx: &mut Ctx, count: u64, seed: u64) {
                 }
                 // reference: the UTF-8 text from a slice
                 let mut variants: Vec<(String, Vec<u8>)> = vec![("utf8".into(), text.clone().into_bytes())];
+                variants.push(("utf8+bom".into(), [&[0xef, 0xbb, 0xbf][..], text.as_bytes()].concat()));
                 for enc in val::ENCODINGS {
                     for bom in [false, true] {
                         variants.push((format!("{enc}{}", if bom { "+bom" } else { "" }), val::reencode(&text, enc, bom)));
